@@ -294,6 +294,10 @@ let handle (case : string) (out : string) : unit =
   if not rates_standard_ok then
     List.iter (fun pr -> report_fail pr "standard_baud_rates" case "Baudrate::to_rate differs from the standard bit rates")
       ["C01"; "C06"; "C11"; "C12"; "C13"];
+  (* which request kinds await a reply (C15: an application is asked again only when no reply is outstanding)
+     must be the standard's table (theorem C15_expects_reply_standard) *)
+  if not expects_reply_standard_ok then
+    report_fail "C15" "standard_expects_reply" case "RequestType::expects_reply differs from the standard table";
   let sections = List.map String.trim (String.split_on_char '/' case) in
   let header, rest = (match sections with h :: r -> (split_ws h, r) | [] -> raise (Bad "empty case")) in
   let p, _seed = (match header with
